@@ -58,5 +58,9 @@ Definition run_inc (i : cfg * list op) : list Z :=
 Definition run_inc_orig (i : cfg * list op) : list Z :=
   let (c, ops) := i in run_ops v_orig c (init_state 1 init_bal) ops.
 
+(* the four flow repairs only (development aid) *)
+Definition run_inc_c12 (i : cfg * list op) : list Z :=
+  let (c, ops) := i in run_ops v_c12 c (init_state 1 init_bal) ops.
+
 (* pure weight function *)
 Definition run_weight (i : Z * Z) : list Z := let (d, a) := i in obs_coarse (fun w => [w]) (calculate_weight d a).
